@@ -46,11 +46,12 @@ theorem fns_change (own : String) (fns : List Fn) (view : List String)
     rw [heq] at this
     exact this (ha hall)
 
-/-- A cycle that sees a waiting object, queues nothing and returns no delays has left early
-(so another event is queued). -/
-theorem early_of_stuck : ∀ (matchDel matchDmn delDone dmnLive dmnForever cons memEmpty otherChanging otherDelays delReset : Bool),
-    let d := decision (inputsB matchDel matchDmn delDone dmnLive dmnForever true true cons memEmpty otherChanging otherDelays delReset)
-    d.add = false → d.removeUnneeded = false → d.release = false → d.delays = false → (cons && memEmpty) = false := by
+/-- A cycle that sees a waiting object, queues nothing and returns no delays has left early as inconsistent
+while NO version was awaited — which the wake-up layer excludes. -/
+theorem early_of_stuck : ∀ (matchDel matchDmn delDone dmnLive dmnForever cons memEmpty otherChanging otherDelays delReset waiting carried : Bool),
+    let d := decision (withWait (inputsB matchDel matchDmn delDone dmnLive dmnForever true true cons memEmpty otherChanging otherDelays delReset) waiting carried)
+    d.add = false → d.removeUnneeded = false → d.release = false → d.delays = false →
+      (cons && memEmpty) = false ∧ waiting = false ∧ carried = false := by
   decide
 
 theorem fns_nil_iff (d : Decision) : d.fns = [] ↔ d.add = false ∧ d.removeUnneeded = false ∧ d.release = false := by
@@ -165,7 +166,6 @@ structure LInv (own : String) (s : LState) : Prop where
         (Fn.block ∈ p.fns → own ∉ p.view) ∧ (Fn.allow ∈ p.fns → own ∈ p.view)
   j5 : ∀ p, s.base.pending = some p → s.base.rv ≠ s.cycViewRv → s.queue ≠ []
   j6 : ∀ p, s.base.pending = some p → p.fns = [] → s.cycDelays = false → Waiting own s.base → s.queue ≠ []
-  j9 : ∀ p, s.base.pending = some p → s.cycUserFns = false
 
 theorem linv_init {own : String} {s : LState} (h : LInit s) : LInv own s := by
   obtain ⟨hb, hq, _, _, _, _⟩ := h
@@ -181,8 +181,8 @@ theorem linv_init {own : String} {s : LState} (h : LInit s) : LInv own s := by
 
 
 theorem linv_decide {own : String} {s s' : LState} {e : Env} {v : Snap} (h : LInv own s)
-    (hg : LGuard (.base (.decide e v))) (hs : lstep own s (.base (.decide e v)) = some s') : LInv own s' := by
-  obtain ⟨hm, hq, j1, jr, j3, j4, j5, j6, j9⟩ := h
+    (hs : lstep own s (.base (.decide e v)) = some s') : LInv own s' := by
+  obtain ⟨hm, hq, j1, jr, j3, j4, j5, j6⟩ := h
   simp only [lstep] at hs
   split at hs
   · cases hs
@@ -216,9 +216,7 @@ theorem linv_decide {own : String} {s s' : LState} {e : Env} {v : Snap} (h : LIn
       bne_iff_ne, ne_eq, not_or, Decidable.not_not, not_and] at hguard
     have hfns : s.base.mem ++ (decision (inputs own v' s.base e)).fns = (decision (inputs own v' s.base e)).fns := by
       rw [hm]; rfl
-    have harm := arm_bool v'.matchDel v'.matchDmn s.base.delDone s.base.dmnLive s.base.dmnForever v'.marked
-      (decide (own ∈ v'.fins)) e.consistent s.base.mem.isEmpty e.otherChanging e.otherDelays e.delReset
-    rw [← inputs_eq] at harm
+    have harm := arm_inputs own v' s.base e
     obtain ⟨hq1, hq2⟩ := hq
     -- the rest of the queue is non-empty whenever the body is stale
     have hstale : s.base.rv ≠ v'.rv → rest ≠ [] := by
@@ -268,27 +266,23 @@ theorem linv_decide {own : String} {s s' : LState} {e : Env} {v : Snap} (h : LIn
         rw [hfns, fns_nil_iff] at hnil
         obtain ⟨hw1, hw2, hw3⟩ := hw
         have hearly := early_of_stuck v'.matchDel v'.matchDmn s.base.delDone s.base.dmnLive s.base.dmnForever
-          e.consistent s.base.mem.isEmpty e.otherChanging e.otherDelays e.delReset
-        have hin : inputs own v' s.base e = inputsB v'.matchDel v'.matchDmn s.base.delDone s.base.dmnLive s.base.dmnForever true true
-            e.consistent s.base.mem.isEmpty e.otherChanging e.otherDelays e.delReset := by
+          (e.consistent && !e.carried) s.base.mem.isEmpty e.otherChanging e.otherDelays e.delReset e.waiting (e.carried || !s.base.mem.isEmpty)
+        have hin : inputs own v' s.base e = withWait (inputsB v'.matchDel v'.matchDmn s.base.delDone s.base.dmnLive s.base.dmnForever true true
+            (e.consistent && !e.carried) s.base.mem.isEmpty e.otherChanging e.otherDelays e.delReset) e.waiting (e.carried || !s.base.mem.isEmpty) := by
           have hmk : v'.marked = true := by rw [hv]; exact hw2
           have hfi : decide (own ∈ v'.fins) = true := by rw [hv]; exact decide_eq_true hw3
           rw [inputs_eq, hmk, hfi]
         rw [hin] at hnil hdel
-        have hc := hearly hnil.1 hnil.2.1 hnil.2.2 hdel
-        rw [hm] at hc
-        simp at hc
-        intro hrest
-        subst hrest
-        have hu : e.userFns = false := hg
-        simp [hc, hu] at hcons
+        obtain ⟨hc, hwt, hcr⟩ := hearly hnil.1 hnil.2.1 hnil.2.2 hdel
+        rw [hm] at hc hcr
+        simp at hc hcr
+        simp [hcr] at hc
+        simp [hc, hwt, hcr] at hcons
       · exact hstale hfresh
-    · intro p _
-      exact hg
 
 theorem linv_merge {own : String} {s s' : LState} (h : LInv own s)
     (hs : lstep own s (.base .mergePatch) = some s') : LInv own s' := by
-  obtain ⟨hm, hq, j1, jr, j3, j4, j5, j6, j9⟩ := h
+  obtain ⟨hm, hq, j1, jr, j3, j4, j5, j6⟩ := h
   simp only [lstep] at hs
   cases hb : step own s.base .mergePatch with
   | none => simp [hb] at hs
@@ -331,8 +325,6 @@ theorem linv_merge {own : String} {s s' : LState} (h : LInv own s)
           · intro p' hp' hnil hd hw
             simp only [Option.some.injEq] at hp'; subst hp'
             exact enqueue_ne_nil_of_ne (j6 p hp hnil hd hw)
-          · intro p' _
-            exact j9 p hp
         · simp only [hmc, if_true] at hb
           cases hb
           have hbump : s.base.rv + 1 ≠ s.base.rv := by omega
@@ -351,14 +343,12 @@ theorem linv_merge {own : String} {s s' : LState} (h : LInv own s)
             exact enqueue_ne_nil_of_bump hbump
           · intro p' _ _ _ _
             exact enqueue_ne_nil_of_bump hbump
-          · intro p' _
-            exact j9 p hp
       · cases hb
     · cases hb
 
 theorem linv_touch {own : String} {s s' : LState} (h : LInv own s)
     (hs : lstep own s .touch = some s') : LInv own s' := by
-  obtain ⟨hm, hq, j1, jr, j3, j4, j5, j6, j9⟩ := h
+  obtain ⟨hm, hq, j1, jr, j3, j4, j5, j6⟩ := h
   simp only [lstep] at hs
   split at hs
   · next hc =>
@@ -467,7 +457,7 @@ theorem lstep_foreign {own : String} {s s' : LState} {l : Label} (hl : l.isForei
 
 theorem linv_foreign {own : String} {s s' : LState} {l : Label} (h : LInv own s) (hl : l.isForeign = true)
     (hs : lstep own s (.base l) = some s') : LInv own s' := by
-  obtain ⟨hm, hq, j1, jr, j3, j4, j5, j6, j9⟩ := h
+  obtain ⟨hm, hq, j1, jr, j3, j4, j5, j6⟩ := h
   obtain ⟨b, hb, rfl⟩ := lstep_foreign hl hs
   obtain ⟨hp, hmem, hw, hfin⟩ := foreign_step_frame hl hb
   have hq' := qok_enqueue hq hb
@@ -511,12 +501,10 @@ theorem linv_foreign {own : String} {s s' : LState} {l : Label} (h : LInv own s)
     by_cases hr : b.rv = s.base.rv
     · exact enqueue_ne_nil_of_ne (j6 p (hp ▸ hpp) hnil hd (hw hr hwait))
     · exact enqueue_ne_nil_of_bump hr
-  · intro p hpp
-    exact j9 p (hp ▸ hpp)
 
 theorem linv_json {own : String} {s s' : LState} {f : Bool} (h : LInv own s) (hg : LGuard (.base (.jsonPatch f)))
     (hs : lstep own s (.base (.jsonPatch f)) = some s') : LInv own s' := by
-  obtain ⟨hm, hq, j1, jr, j3, j4, j5, j6, j9⟩ := h
+  obtain ⟨hm, hq, j1, jr, j3, j4, j5, j6⟩ := h
   have hf : f = false := hg
   subst hf
   simp only [lstep] at hs
@@ -595,7 +583,7 @@ theorem linv_step {own : String} {s s' : LState} {l : LLabel} (h : LInv own s) (
   | touch => exact linv_touch h hs
   | base bl =>
     cases bl with
-    | decide e v => exact linv_decide h hg hs
+    | decide e v => exact linv_decide h hs
     | mergePatch => exact linv_merge h hs
     | jsonPatch f => exact linv_json h hg hs
     | restart => exact linv_restart h hs
@@ -690,15 +678,15 @@ theorem settled_of_sameReq {a b : State} (h : SameReq a b) (hs : Settled a) : Se
 
 theorem afterCycle_released (own : String) (s : State) (e : Env) (hmem : s.mem = [])
     (hm : s.marked = true) (hown : own ∈ s.fins) (hset : Settled s)
-    (hc : e.consistent = true) (hod : e.otherDelays = false) (hdr : e.delReset = false) :
+    (hc : e.consistent = true) (hcr : e.carried = false) (hod : e.otherDelays = false) (hdr : e.delReset = false) :
     own ∉ (afterCycle own s e).fins ∧ (afterCycle own s e).mem = [] ∧ (afterCycle own s e).pending = none ∧
     ((afterCycle own s e).fins = [] → (afterCycle own s e).gone = true) := by
   have hb := release_bool s.matchDel s.matchDmn s.delDone s.dmnForever e.otherChanging hset.1
-  have hin : inputs own (snap s) s e = inputsB s.matchDel s.matchDmn s.delDone false s.dmnForever true true true true e.otherChanging false false := by
-    rw [inputs_eq, hset.2, hc, hod, hdr, hmem]; simp [hown, hm]
+  have hin : inputs own (snap s) s e = withWait (inputsB s.matchDel s.matchDmn s.delDone false s.dmnForever true true true true e.otherChanging false false) e.waiting false := by
+    rw [inputs_eq, hset.2, hc, hod, hdr, hmem, hcr]; simp [hown, hm]
   obtain ⟨pre, hpre⟩ := fns_snoc_allow _ hb.1 hb.2
   have htarget : own ∉ applyFns own (s.mem ++ (decision (inputs own (snap s) s e)).fns) s.fins := by
-    rw [hin, hpre, ← List.append_assoc]
+    rw [hin, dw_fns, hpre, ← List.append_assoc]
     intro hmem'
     have := (own_mem_applyFns_snoc own _ Fn.allow s.fins).mp hmem'
     cases this
@@ -859,7 +847,7 @@ theorem drain (own : String) : ∀ (n : Nat) (s : LState), LInv own s → s.base
       exact hst hlrv
     · refine ⟨_, s', by simp, by simp [LLabel.isOperator], hrun, ?_⟩
       rw [hbase, hb2]
-      exact (afterCycle_released own s.base quiet hI.memNil hw.2.1 hw.2.2 hset rfl rfl rfl).1
+      exact (afterCycle_released own s.base quiet hI.memNil hw.2.1 hw.2.2 hset rfl rfl rfl rfl).1
   | succ n ih =>
     intro s hI hp hw hset hmk hlen
     obtain ⟨v, rest, hq⟩ : ∃ v rest, s.queue = v :: rest := by
@@ -893,7 +881,7 @@ theorem drain (own : String) : ∀ (n : Nat) (s : LState), LInv own s → s.base
       · rw [lrun_append, hrun]; exact hrun'
     · refine ⟨_, s', by simp; omega, by simp [LLabel.isOperator], hrun, ?_⟩
       rw [hbase, hb2]
-      exact (afterCycle_released own s.base quiet hI.memNil hw.2.1 hw.2.2 hset rfl rfl rfl).1
+      exact (afterCycle_released own s.base quiet hI.memNil hw.2.1 hw.2.2 hset rfl rfl rfl rfl).1
 
 
 theorem enqueue_grow (t : LState) (b : State) :
